@@ -113,6 +113,24 @@ def symbolic_seq(ex, it, line):
         return la, lambda h, i: Tup([mka(h, i), Z(S.nth(lb, i), origin="element of zip")])
     if isinstance(it, Z) and it.t.sort() == S.Py:
         return ex.to_list(it, line), lambda h, i: Z(h)
+    if isinstance(it, Bound) and it.name == "__items__":
+        # d.items() of an array-modelled dictionary: SOME list of pairs, of which the rule only
+        # knows that every element is a (key, value) pair of the dictionary (that every pair is
+        # met, once, is not modelled: invariants over such a loop can only be facts that hold
+        # whatever pairs are met - enough for frames, safety and subset facts)
+        d = it.obj
+        if "items" not in d.attrs:
+            d.attrs["items"] = ex.fresh("dict.items", S.PyList)
+        P = ex.P
+
+        def mk(h, i):
+            k = ex.fresh("item.k", S.Py)
+            v = ex.fresh("item.v", S.Py)
+            ex.assume(h == P.PTuple(S.cons(k, S.cons(v, S.nil))))
+            ex.assume(z3.Select(d.attrs["dom"], k))
+            ex.assume(z3.Select(d.attrs["val"], k) == v)
+            return Tup([Z(k, origin="dictionary key"), Z(v, origin="dictionary value")])
+        return d.attrs["items"], mk
     raise Unsupported(f"iteration over {it!r}")
 
 
